@@ -4,7 +4,9 @@
 EXTENDS Cfm, Json, IOUtils, SequencesExt
 ZoneList(s, a, salt) == [k \in 1..((a + s + salt) % 4) |-> <<(a + k + salt) % 3, (s * 1000 + a * 2 + k * 7 + salt) % 65536>>]
 Map(n, salt) == [s \in 1..n |-> [a \in 1..NAz |-> ZoneList(s, a, salt)]]
-Vec(n, salt) == [bytes |-> EncodeCfm(19000 + salt, 700 + salt, Map(n, salt)), date |-> 19000 + salt, minutes |-> 700 + salt, map |-> Map(n, salt)]
+Minutes(n, salt) == IF salt = 0 THEN 1439 - n ELSE 1093 + n      \* late in the day: minutes x 60 exceeds 16 bits
+Vec(n, salt) == [bytes |-> EncodeCfm(19000 + salt, Minutes(n, salt), Map(n, salt)), date |-> 19000 + salt, minutes |-> Minutes(n, salt),
+                 instant |-> <<19000 + salt - 1, Minutes(n, salt) * 60000>>, map |-> Map(n, salt)]
 ASSUME ndJsonSerialize(IOEnv.OUT, SetToSeq({Vec(n, salt) : n \in {0, 1, 2}, salt \in {0, 1}}))
 GInit == CInit(<<>>)
 ====
